@@ -927,7 +927,7 @@ func TestUDPInSessionLostReply(t *testing.T) {
 			// repeat in three runs in a row before it counts (a stalled machine does not
 			// stall the same way three times; a defect does)
 			msg := ""
-			for try := 0; try < 3; try++ {
+			for try := 0; try < 1; try++ { // no reply ever comes here, so a stalled machine cannot add datagrams: one run decides
 				if msg = run(); msg == "" {
 					break
 				}
